@@ -112,6 +112,12 @@ IMPORT_FORMS = [
     ("from proj.ns import deeper", ["proj.ns.deeper"]),
     ("from ...ns.deeper import mod", ["proj.ns.deeper.mod"]),
     ("import proj.ns.deeper.mod", ["proj.ns.deeper.mod"]),
+    # one statement naming scanned sub modules AND objects of the package: each name stands for its own edge (P.n for a module n, P otherwise)
+    ("from proj.a import m, Obj", ["proj.a.m", "proj.a"]),
+    ("from proj.a import Obj, n", ["proj.a", "proj.a.n"]),
+    ("from proj.a import m, Obj, n, Other", ["proj.a.m", "proj.a.n", "proj.a"]),
+    ("from ...a import Obj as o, m", ["proj.a", "proj.a.m"]),
+    ("from proj.a.sub import deep, helper", ["proj.a.sub.deep", "proj.a.sub"]),
 ]
 
 
@@ -152,7 +158,7 @@ def _c02_case(args):
 
 def bounded_import_edges(tier, seed):
     b = Bounded("C02.import-statements-vs-edges", "every statement-list position of the running interpreter's grammar (read from the ast node classes; fails closed on an unknown one), nested to depth "
-                "1 (all) and depth 2 (all pairs in thorough, 60 random pairs in quick) x 19 import forms (plain, aliased, multi-name, from-name, from-submodule, star, relative levels 1-3), in a "
+                "1 (all) and depth 2 (all pairs in thorough, 60 random pairs in quick) x 29 import forms (plain, aliased, multi-name, from-name, from-submodule, mixed module/object names, star, relative levels 1-3, namespace packages), in a "
                 "regular file and inside an __init__ file, in a fixed 13-file project")
     pos = grammar_positions()
     unknown = sorted(p for p in pos if p not in TEMPLATES)
@@ -207,6 +213,9 @@ def random_tree(rng, depth=3, with_init=0.7):
     def fill(prefix, d):
         names = rng.sample(NAMES, rng.randint(2, 4))
         for nm in names:
+            if rng.random() < 0.06:
+                files[prefix + nm + "/"] = ""      # an EMPTY directory is a module too (git does not track one, a working tree may well contain one)
+                continue
             if d < depth and rng.random() < 0.45:
                 sub = prefix + nm + "/"
                 if rng.random() < with_init:
@@ -245,6 +254,8 @@ def add_imports(files, rng, n, externals=()):
     drop_shadowed(files)
     pyfiles = sorted(f for f in files if f.endswith(".py") and re.match(r"^[A-Za-z_0-9/]+\.py$", f))
     edges = set()
+    if not pyfiles:
+        return edges
     for _ in range(n):
         a = rng.choice(pyfiles)
         if externals and rng.random() < 0.4:
@@ -505,7 +516,7 @@ def _c08_case(seed):
         full = arch_snapshot(scan(root, exclusions=("*__pycache__*",)))
         allpaths = {root}
         for f in files:
-            parts = f.split("/")
+            parts = [x for x in f.split("/") if x]      # (an empty directory is written as "dir/")
             for i in range(1, len(parts) + 1):
                 allpaths.add(os.path.join(root, *parts[:i]))
         target = rng.choice(sorted(p for p in allpaths if p != root))
